@@ -320,6 +320,29 @@ func init() {
 				}
 			}
 		}
+		// (2b) month ends and leap days of every century year and its neighbours (the Gregorian
+		// exceptions), far years included
+		k19 := 0
+		for c := -2400; c <= 10000; c += 100 {
+			for _, y := range []int{c - 4, c - 1, c, c + 1, c + 4} {
+				k19++
+				if !d.Mine(k19) {
+					continue
+				}
+				for m := 1; m <= 12; m++ {
+					for _, dd := range []int{28, 29, 30, 31, 32} {
+						unbin(append(append([]byte{1}, yb(y)...), byte(m), byte(dd)), pre)
+					}
+				}
+			}
+		}
+		for i, y := range []int{-999999996, -999999900, -999999600, 999999600, 999999900, 999999996, 100000, 123456700, 400000000, 2147483600, -2147483600, 2147483647, -2147483648} {
+			if d.Mine(i) {
+				for _, md := range [][2]int{{2, 28}, {2, 29}, {2, 30}, {4, 31}, {12, 31}, {1, 0}, {0, 1}, {13, 1}} {
+					unbin(append(append([]byte{1}, yb(y)...), byte(md[0]), byte(md[1])), pre)
+				}
+			}
+		}
 		if d.Shard == 0 {
 			// (3) all 256 version bytes, all lengths 0..16, with valid and invalid tails
 			for v := 0; v < 256; v++ {
